@@ -4,6 +4,7 @@ from rulelib import *
 from factbase import AnchorError, op_place, op_const
 from units import Units, return_units, adt_field_units, BYTE, UTF16, ANY
 from props import c07
+from props.parser_shared import first_tokens, closure_args
 
 TITLE = "Formatting preserves meaning and is idempotent"
 TECHNIQUE = "constant-table rules: the formatter's legend (syn) joined with the parser's (token kind, legend entry) pairing read from MIR; dataflow of the emitted text; unit rule on the edit range"
@@ -70,6 +71,51 @@ def run(cx):
     comma_pairs = [st for k, st in pairs if k == "Comma"]
     cx.ob("R22.only-comma-removed", "pair|Comma", comma_pairs == ["ST_COMMA"] or not comma_pairs,
           "comma tokens are recorded as %s" % comma_pairs, "crates/isograph_lang_parser/src", nontrivial=False)
+    # ---- R22.separator-recreated: commas are dropped, so every delimited item must start a new line ---
+    behaviour = {}
+    for c in consts:
+        m = re.search(r"LineBehavior\s*::\s*(\w+)", c["expr"])
+        if m:
+            behaviour[c["name"]] = m.group(1)
+    par = cx.mir("isograph_lang_parser")
+    delim = par.one(r"parse_iso_literal::parse_comma_or_line_break$")
+    items = {}
+    for f in par.fns.values():
+        if f.crate != "isograph_lang_parser":
+            continue
+        for t in f.calls():
+            if term_calls(t, r"parse_iso_literal::parse_delimited_list$"):
+                fns = [op_const(a)["fn"] for a in t.args if op_const(a) and op_const(a).get("fn")]
+                if delim.id not in fns:
+                    continue
+                for g in closure_args(par, f, t):
+                    items[g.id] = g
+                for n in fns:
+                    if n != delim.id and n in par.fns:
+                        items[n] = par.fns[n]
+            elif t.callee == delim.id and f.name != "parse_delimited_list":
+                r = par.fns.get(f.root) if f.root else f
+                items[r.id] = r
+    cx.floor("R22.separator-recreated delimited item parsers", len(items), 4)
+    REJECTED = {"parse_up_to_three_dots": "a selection starting with '.' is turned into the fragment-spread diagnostic"}
+    NULLABLE = {"parse_directives", "parse_optional_arguments", "parse_optional_selection_set", "parse_optional_description",
+                "parse_variable_definitions"}
+    memo = {}
+    nfirst = 0
+    for iid, g in sorted(items.items()):
+        firsts = first_tokens(par, g, NULLABLE, REJECTED, memo)
+        if not firsts:
+            raise AnchorError("no first token found for delimited item parser %s" % iid)
+        for kind, st in sorted(firsts):
+            nfirst += 1
+            b = behaviour.get(st)
+            cx.ob("R22.separator-recreated", "%s|first-token-%s-%s" % (g.name if not g.root else par.fns[g.root].name + "::closure", kind, st),
+                  b in ("StartsNewLine", "IsOwnLine"),
+                  "items parsed by %s are separated by a comma or a line break; the formatter drops commas, so the "
+                  "first token of an item must start a new line, but it is recorded as %s whose line behaviour is %s: "
+                  "two such items are glued together and the formatted literal no longer parses" % (g.name, st, b),
+                  g.loc(g.lo))
+    cx.floor("R22.separator-recreated first tokens", nfirst, 4)
     # ---- R22.tokens-complete (the C07 clause) -----------------------------------------------------
     pf = cx.mir("isograph_lang_parser")
     pt = pf.one(r"peekable_lexer::PeekableLexer::<'source>::parse_token$")
@@ -107,7 +153,36 @@ def run(cx):
             ok = src is not None
     cx.ob("R22.emits-own-text", body.id + "|kept-token-text-is-its-span", ok,
           "the text pushed for a kept token is not the slice of the literal at that token's span", body.loc())
-    # a removed token pushes nothing: no push_str of content on the not-kept branch
+    # ---- R22.removed-token-inert: a dropped token neither emits text nor changes the layout state ---------
+    nxt0 = blocks_calling(body, r"Iterator>?::next$")
+    in_loop = set()
+    for n in nxt0:
+        after = reachable_from(body, n)
+        in_loop |= {b for b in after if n in body.reachable(b) and b != n}
+    keep_true = []
+    for k in keep:
+        br = call_bool_branch(body, k)
+        if br:
+            keep_true.append(br[0])
+    lasts = {i for i in range(len(body.j["locals"])) if body.local_name(i) == "last_line_behavior"}
+    if not lasts:
+        raise AnchorError("format_extraction: local last_line_behavior not found")
+    effects = []
+    for b in sorted(in_loop):
+        blk = body.blocks[b]
+        if blk_calls(blk, r"string::String::push(_str)?$|format::push_indented_line_break$"):
+            effects.append((b, "emits text", blk.term.line))
+        for st in blk.stmts:
+            if st.dst is not None and st.dst.local in lasts and not st.dst.proj:
+                effects.append((b, "updates last_line_behavior", st.line))
+    cx.floor("R22.removed-token-inert layout effects in the token loop", len(effects), 4)
+    for b, what, line in effects:
+        guarded = any(body.dominates(tb, b) for tb in keep_true)
+        cx.ob("R22.removed-token-inert", "%s|%s#%d" % ("format_extraction", what.replace(" ", "-"), sum(1 for e in effects if e[1] == what and e[0] < b)),
+              guarded,
+              "the formatter %s for a token that it drops (should_keep() is false): the result then depends on whether "
+              "an optional comma was written, so formatting the formatted text again gives a different result "
+              "(e.g. `},` leaves a whitespace-only line)" % what, body.loc(line))
     # indentation symmetric: one Sub and one Add of 1 on `indent`
     subs = [s for s in body.stmts() if s.rv == "binop" and s.j["binop"].startswith("Sub") and any((op_const(o) or {}).get("v") == "1" for o in s.ops)]
     adds = [s for s in body.stmts() if s.rv == "binop" and s.j["binop"].startswith("Add") and any((op_const(o) or {}).get("v") == "1" for o in s.ops)]
